@@ -38,7 +38,7 @@ def setup(ctx):
     U.install_permissive_levels()
 
 
-POOL_SIZE = 17
+POOL_SIZE = 19
 
 
 def plan(tier, seed):
@@ -170,12 +170,19 @@ def build_pool(pseed, ctx):
     # members aimed at per-sequence validator state: a version-3 header over pictures that need less
     # (rejected alone by the minimal-version rule only), and a field sequence with a single field
     for name, kinds in ((rng.choice(["hq3", "ld3", "hq3f", "hq3w"]), None), (rng.choice(["hq2f", "hq3f"]), "onefield"),
-                        (rng.choice(["hq2", "ld1", "hq3"]), "firstprev")):
+                        (rng.choice(["hq2", "ld1", "hq3"]), "firstprev"), (rng.choice(["hq3", "ld3", "hq3f"]), "incompletefrag"),
+                        (rng.choice(["hq2", "ld1", "hq3", "ld3"]), "eosnext")):
         fam, m = c01.fam_model(name)
         if kinds is None:
             k = ["SH"] + ["PIC"] * (2 if fam.fields else rng.choice([1, 2])) + ["EOS"]
         elif kinds == "firstprev":
             k = ["SH"] + (["PIC"] if fam.version < 3 else []) + ["EOS"]
+        elif kinds == "incompletefrag":
+            # ends part way through a fragmented picture: rejected alone at its end_of_sequence, and just as much
+            # when more sequences follow
+            k = ["SH"] + rng.choice([["F0"], ["PAD", "F0"], ["F0", "FS:1:0"] if fam.nsl > 1 else ["F0"]]) + ["EOS"]
+        elif kinds == "eosnext":
+            k = ["SH"] + (["PIC"] * (2 if fam.fields else 1) if fam.version < 3 else []) + ["EOS"]
         else:
             k = ["SH", "PIC", "EOS"]
         hist = c01.number_history(k, rng.choice([0, 4, 2 ** 32 - 2]))
@@ -183,6 +190,10 @@ def build_pool(pseed, ctx):
             # rejected alone only because its first previous_parse_offset is not 0; the value "points" at a
             # 13-byte end_of_sequence unit that would precede it in a concatenation
             hist[0]["off"], hist[0]["offv"] = "prevwrong", 13
+        if kinds == "eosnext":
+            # rejected alone only because its end_of_sequence carries a non-zero next_parse_offset (13: the distance to
+            # the sequence that follows it in a concatenation)
+            hist[-1]["off"] = "nextlen"
         data, _ = U.assemble(fam, hist)
         members.append({"kind": "targeted:" + name, "data": data})
     # standalone executions
